@@ -40,6 +40,9 @@ pub const POLICIES: [Policy; 8] = [
 ];
 
 static RECORDING: AtomicBool = AtomicBool::new(false);
+/// perturb at the hook points without recording (monitors that run many encodes concurrently in
+/// one process and only want a slow hasher / slow feeder, not an event log)
+static PERTURB_ONLY: AtomicBool = AtomicBool::new(false);
 static POLICY: AtomicUsize = AtomicUsize::new(0);
 static RUN_SEED: AtomicU64 = AtomicU64::new(0);
 static LOG: Mutex<Vec<Event>> = Mutex::new(Vec::new());
@@ -145,6 +148,9 @@ fn callback(site: &'static str, a: usize, b: usize) {
         return;
     }
     if !RECORDING.load(Ordering::Acquire) {
+        if PERTURB_ONLY.load(Ordering::Acquire) {
+            perturb(site, a, b);
+        }
         return;
     }
     // 1. perturb (outside any harness lock)
@@ -185,6 +191,19 @@ pub fn begin_run(policy: Policy, seed: u64) {
     POLICY.store(POLICIES.iter().position(|p| *p == policy).unwrap_or(0), Ordering::Relaxed);
     RUN_SEED.store(seed, Ordering::Relaxed);
     RECORDING.store(true, Ordering::Release);
+}
+
+/// Process-wide perturbation without an event log (None switches it off).
+pub fn perturb_only(policy: Option<Policy>, seed: u64) {
+    install();
+    match policy {
+        Some(p) => {
+            POLICY.store(POLICIES.iter().position(|x| *x == p).unwrap_or(0), Ordering::Relaxed);
+            RUN_SEED.store(seed, Ordering::Relaxed);
+            PERTURB_ONLY.store(true, Ordering::Release);
+        }
+        None => PERTURB_ONLY.store(false, Ordering::Release),
+    }
 }
 
 /// Stops recording and returns the log.
